@@ -661,8 +661,9 @@ class Triangle(Polygon, Simplex):
         lambda3 = det(np.stack([a, b, p], axis=-2))
 
         # closed triangle: the three (oriented) barycentric coordinates have one sign or vanish
-        nonneg = (lambda1 >= 0) & (lambda2 >= 0) & (lambda3 >= 0)
-        nonpos = (lambda1 <= 0) & (lambda2 <= 0) & (lambda3 <= 0)
+        # (up to the usual absolute tolerance: the determinant of a single matrix is computed by LAPACK with rounding)
+        nonneg = (lambda1 >= -EQ_TOL_ABS) & (lambda2 >= -EQ_TOL_ABS) & (lambda3 >= -EQ_TOL_ABS)
+        nonpos = (lambda1 <= EQ_TOL_ABS) & (lambda2 <= EQ_TOL_ABS) & (lambda3 <= EQ_TOL_ABS)
         return nonneg | nonpos
 
 
